@@ -5,6 +5,7 @@ from vstat.loader import AnalysisError
 from vstat.terms import IT, builder, show, SELF, NONE, G, alts, walk, mentions, phi, strip_none
 from vstat.guards import path_conditions
 from vstat.cfg import cfg_of
+from vstat.sigs import bind
 from vstat import algebra
 from . import c10
 
@@ -89,15 +90,31 @@ def dims(prog, rep):
         w = ("sub", ("sub", fd, i), ("const", "weights"))
         ck = ("sub", cond, i)
         pc = pcs.of(st)
+
+        def positional(callee_q):
+            """the call's arguments in the order of the callee's own formals (keywords placed at their positions)"""
+            names = [p_ for p_ in prog.func(callee_q).positional_params if p_ != "self"]
+            bd = bind(t, names)
+            if bd is None or set(bd) - set(names):
+                return None
+            out = []
+            for n_ in names:
+                if n_ not in bd:
+                    break
+                out.append(bd[n_])
+            return tuple(out) if len(out) == len(bd) else None
+
         if ("isnone", ck) in pc:
             seen["marg"] = True
-            ok = args == (("col", data, i), m, w) and not t[3] and rng_ok
+            args = positional("virocon.distributions.Distribution.fit") or args
+            ok = args == (("col", data, i), m, w) and rng_ok
             rep.check(ok, "C09.dims", f"{q}:unconditional", site, "distributions[i].fit(data[:, i], fit_descriptions[i]['method'], fit_descriptions[i]['weights'])",
                       f"the unconditional fit must use column i, method and weights of the SAME i for i in range(n_dim); found {[show(a)[:70] for a in args]}")
         elif ("not", ("isnone", ck)) in pc:
             seen["cond"] = True
             sp = ("call", ("attr", SELF, "_split_in_intervals"), (data, i, ck), ())
-            ok = args == (IT(sp, 0), IT(sp, 1), IT(sp, 2), m, w) and not t[3] and rng_ok
+            args = positional("virocon.distributions.ConditionalDistribution.fit") or args
+            ok = args == (IT(sp, 0), IT(sp, 1), IT(sp, 2), m, w) and rng_ok
             rep.check(ok, "C09.dims", f"{q}:conditional", site,
                       "distributions[i].fit(*_split_in_intervals(data, i, conditional_on[i]), method_i, weights_i)",
                       f"the conditional fit must split (data, i, conditional_on[i]) and pass the interval data, reference values and boundaries in order "
@@ -247,12 +264,18 @@ def defaults(prog, rep):
         # the all-None default built by a loop of appends
         if nm == "fit_descriptions" and ("isnone", fdp) in pcs.of(st) and t[0] == "comp" and t[2] == dflt and t[4] == ("call", G("range"), (("attr", SELF, "n_dim"),), ()):
             all_none = True
-    rep.check(d_ok and all_none, "C09.defaults", f"{q}:none", fn.where(), "no descriptions -> n_dim x {'method': 'mle', 'weights': None}",
-              "fit_descriptions=None must become one {'method': 'mle', 'weights': None} per dimension")
     rep.check(entry_none, "C09.defaults", f"{q}:entry", fn.where(), "entry None -> default of that entry",
               "a None entry must be replaced by the default description at the same index")
     rep.check(w_none, "C09.defaults", f"{q}:weights", fn.where(), "missing 'weights' -> None in the same entry",
               "a description without 'weights' must get weights=None in the same entry")
     ret = [s for s in cfg.all_stmts() if isinstance(s, ast.Return)]
-    rep.check(len(ret) == 1 and all(a in (fdp,) or a[0] in ("comp", "bin") for a in alts(b.term(ret[0].value, ret[0]))), "C09.defaults", f"{q}:returns", fn.where(),
+    for r_ in ret:
+        # the all-None default returned directly
+        tr = b.term(r_.value, r_)
+        if ("isnone", fdp) in pcs.of(r_) and ((tr[0] == "comp" and tr[2] == dflt and tr[4] == ("call", G("range"), (("attr", SELF, "n_dim"),), ()))
+                                              or tr == ("bin", "*", ("list", (dflt,)), ("attr", SELF, "n_dim"))):
+            all_none = True
+    rep.check(d_ok and all_none, "C09.defaults", f"{q}:none", fn.where(), "no descriptions -> n_dim x {'method': 'mle', 'weights': None}",
+              "fit_descriptions=None must become one {'method': 'mle', 'weights': None} per dimension")
+    rep.check(bool(ret) and all(a in (fdp,) or a[0] in ("comp", "bin") for r_ in ret for a in alts(b.term(r_.value, r_))), "C09.defaults", f"{q}:returns", fn.where(),
               "returns the (filled) descriptions", "must return the filled fit descriptions")
